@@ -1338,8 +1338,29 @@ impl GraphDatabase {
             valid_edges.push((edge, name));
         }
 
-        let msg = AuthorisationMessage::AddEdges(room_id, valid_edges, invalid_edges, reply);
-        let _ = self.auth_service.send(msg).await;
+        //an edge belongs to the room of its source node: the node must be stored in the room being synchronised
+        let auth_service = self.auth_service.clone();
+        let _ = self
+            .graph_database
+            .reader
+            .send_async(Box::new(move |conn| {
+                match Edge::filter_source_in_room(&room_id, valid_edges, conn) {
+                    Ok((valid_edges, mut other_room)) => {
+                        invalid_edges.append(&mut other_room);
+                        let msg = AuthorisationMessage::AddEdges(
+                            room_id,
+                            valid_edges,
+                            invalid_edges,
+                            reply,
+                        );
+                        let _ = auth_service.send_blocking(msg);
+                    }
+                    Err(e) => {
+                        let _ = reply.send(Err(Error::from(e)));
+                    }
+                }
+            }))
+            .await;
     }
 
     pub async fn delete_edges(&self, mut edges: Vec<EdgeDeletionEntry>, reply: Sender<Result<()>>) {
